@@ -112,4 +112,236 @@ pub mod verif {
     {
         crate::copy_future::CopyFuture::new(src, dst, max_circuit_duration, max_circuit_bytes)
     }
+
+    // ---- behaviour-level driving of the relay `Behaviour` (admission limits) ----
+
+    use either::Either;
+    use libp2p_core::ConnectedPoint;
+    use libp2p_identity::PeerId;
+    use libp2p_swarm::{ConnectionId, Stream, THandlerInEvent, THandlerOutEvent};
+
+    pub use crate::{
+        behaviour::CircuitId,
+        protocol::inbound_hop::{CircuitReq, ReservationReq},
+    };
+    use crate::behaviour::{Behaviour, handler};
+
+    /// The real inbound HOP request parser of the relay handler.
+    pub async fn handle_inbound_request(
+        io: Stream,
+        reservation_duration: Duration,
+        max_circuit_duration: Duration,
+        max_circuit_bytes: u64,
+    ) -> Result<Either<ReservationReq, CircuitReq>, String> {
+        crate::protocol::inbound_hop::handle_inbound_request(
+            io,
+            reservation_duration,
+            max_circuit_duration,
+            max_circuit_bytes,
+        )
+        .await
+        .map_err(|e| e.to_string())
+    }
+
+    /// Constructors for the events the relay handler reports to the behaviour.
+    pub mod from_handler {
+        use super::*;
+
+        type Ev = THandlerOutEvent<Behaviour>;
+
+        pub fn reservation_req_received(
+            inbound_reservation_req: ReservationReq,
+            endpoint: ConnectedPoint,
+            renewed: bool,
+        ) -> Ev {
+            Either::Left(handler::Event::ReservationReqReceived {
+                inbound_reservation_req,
+                endpoint,
+                renewed,
+            })
+        }
+
+        pub fn reservation_req_accepted(renewed: bool) -> Ev {
+            Either::Left(handler::Event::ReservationReqAccepted { renewed })
+        }
+
+        pub fn reservation_req_accept_failed() -> Ev {
+            Either::Left(handler::Event::ReservationReqAcceptFailed {
+                error: crate::protocol::inbound_hop::Error::StreamClosed,
+            })
+        }
+
+        pub fn reservation_req_denied() -> Ev {
+            Either::Left(handler::Event::ReservationReqDenied {
+                status: crate::proto::Status::ResourceLimitExceeded,
+            })
+        }
+
+        pub fn reservation_timed_out() -> Ev {
+            Either::Left(handler::Event::ReservationTimedOut {})
+        }
+
+        pub fn circuit_req_received(
+            inbound_circuit_req: CircuitReq,
+            endpoint: ConnectedPoint,
+        ) -> Ev {
+            Either::Left(handler::Event::CircuitReqReceived {
+                inbound_circuit_req,
+                endpoint,
+            })
+        }
+
+        pub fn circuit_req_denied(circuit_id: Option<CircuitId>, dst_peer_id: PeerId) -> Ev {
+            Either::Left(handler::Event::CircuitReqDenied {
+                circuit_id,
+                dst_peer_id,
+                status: crate::proto::Status::ResourceLimitExceeded,
+            })
+        }
+
+        pub fn circuit_req_deny_failed(circuit_id: Option<CircuitId>, dst_peer_id: PeerId) -> Ev {
+            Either::Left(handler::Event::CircuitReqDenyFailed {
+                circuit_id,
+                dst_peer_id,
+                error: crate::protocol::inbound_hop::Error::StreamClosed,
+            })
+        }
+
+        pub fn outbound_connect_negotiated(
+            circuit_id: CircuitId,
+            src_peer_id: PeerId,
+            src_connection_id: ConnectionId,
+            inbound_circuit_req: CircuitReq,
+            dst_stream: Stream,
+        ) -> Ev {
+            Either::Left(handler::Event::OutboundConnectNegotiated {
+                circuit_id,
+                src_peer_id,
+                src_connection_id,
+                inbound_circuit_req,
+                dst_stream,
+                dst_pending_data: Default::default(),
+            })
+        }
+
+        pub fn outbound_connect_negotiation_failed(
+            circuit_id: CircuitId,
+            src_peer_id: PeerId,
+            src_connection_id: ConnectionId,
+            inbound_circuit_req: CircuitReq,
+        ) -> Ev {
+            Either::Left(handler::Event::OutboundConnectNegotiationFailed {
+                circuit_id,
+                src_peer_id,
+                src_connection_id,
+                inbound_circuit_req,
+                status: crate::proto::Status::ConnectionFailed,
+                error: crate::protocol::outbound_stop::Error::Unsupported,
+            })
+        }
+
+        pub fn circuit_req_accepted(circuit_id: CircuitId, dst_peer_id: PeerId) -> Ev {
+            Either::Left(handler::Event::CircuitReqAccepted {
+                circuit_id,
+                dst_peer_id,
+            })
+        }
+
+        pub fn circuit_req_accept_failed(circuit_id: CircuitId, dst_peer_id: PeerId) -> Ev {
+            Either::Left(handler::Event::CircuitReqAcceptFailed {
+                circuit_id,
+                dst_peer_id,
+                error: crate::protocol::inbound_hop::Error::StreamClosed,
+            })
+        }
+
+        pub fn circuit_closed(circuit_id: CircuitId, dst_peer_id: PeerId, error: bool) -> Ev {
+            Either::Left(handler::Event::CircuitClosed {
+                circuit_id,
+                dst_peer_id,
+                error: error.then(|| io::ErrorKind::ConnectionReset.into()),
+            })
+        }
+    }
+
+    /// Public mirror of the commands the behaviour sends to its handlers.
+    pub enum ToHandler {
+        AcceptReservationReq {
+            inbound_reservation_req: ReservationReq,
+            addrs: Vec<libp2p_core::Multiaddr>,
+        },
+        DenyReservationReq {
+            inbound_reservation_req: ReservationReq,
+        },
+        DenyCircuitReq {
+            circuit_id: Option<CircuitId>,
+            inbound_circuit_req: CircuitReq,
+            no_reservation: bool,
+        },
+        NegotiateOutboundConnect {
+            circuit_id: CircuitId,
+            inbound_circuit_req: CircuitReq,
+            src_peer_id: PeerId,
+            src_connection_id: ConnectionId,
+        },
+        AcceptAndDriveCircuit {
+            circuit_id: CircuitId,
+            dst_peer_id: PeerId,
+            inbound_circuit_req: CircuitReq,
+        },
+        SetStatus,
+    }
+
+    pub fn to_handler(ev: THandlerInEvent<Behaviour>) -> ToHandler {
+        let ev = match ev {
+            Either::Left(ev) => ev,
+            Either::Right(v) => libp2p_core::util::unreachable(v),
+        };
+        match ev {
+            handler::In::AcceptReservationReq {
+                inbound_reservation_req,
+                addrs,
+            } => ToHandler::AcceptReservationReq {
+                inbound_reservation_req,
+                addrs,
+            },
+            handler::In::DenyReservationReq {
+                inbound_reservation_req,
+                ..
+            } => ToHandler::DenyReservationReq {
+                inbound_reservation_req,
+            },
+            handler::In::DenyCircuitReq {
+                circuit_id,
+                inbound_circuit_req,
+                status,
+            } => ToHandler::DenyCircuitReq {
+                circuit_id,
+                inbound_circuit_req,
+                no_reservation: matches!(status, crate::proto::Status::NoReservation),
+            },
+            handler::In::NegotiateOutboundConnect {
+                circuit_id,
+                inbound_circuit_req,
+                src_peer_id,
+                src_connection_id,
+            } => ToHandler::NegotiateOutboundConnect {
+                circuit_id,
+                inbound_circuit_req,
+                src_peer_id,
+                src_connection_id,
+            },
+            handler::In::AcceptAndDriveCircuit {
+                circuit_id,
+                dst_peer_id,
+                inbound_circuit_req,
+                ..
+            } => ToHandler::AcceptAndDriveCircuit {
+                circuit_id,
+                dst_peer_id,
+                inbound_circuit_req,
+            },
+            handler::In::SetStatus { .. } => ToHandler::SetStatus,
+        }
+    }
 }
